@@ -327,3 +327,10 @@ class VCount(V):
 
 
 COUNT = TCount()
+
+
+class VStar(V):
+    """a *starred call argument"""
+
+    def __init__(self, value):
+        self.value = value
